@@ -12,16 +12,19 @@ Body(lv, x, shape) ==
     [] shape = 4 -> <<Text(Lv(lv) \o x \o "<"), Block(Other(x), "none"), Super, Text(">")>>
     [] shape = 5 -> <<Block(Other(x), "if"), Text(Lv(lv) \o x)>>
     [] shape = 6 -> <<Block(Other(x), "for"), Super>>
+    [] shape = 7 -> <<Text(Lv(lv) \o x), LoopVar, Super>>
+    [] shape = 8 -> <<Super, LoopVar>>
 
+Nested(sh) == sh \in {4, 5, 6}          \* shapes whose body contains the other block
 ValidLevel(aS, bS) ==
-  /\ ~(aS >= 4 /\ bS >= 4)
-  /\ (aS >= 4 => bS \in 1..3)
-  /\ (bS >= 4 => aS \in 1..3)
+  /\ ~(Nested(aS) /\ Nested(bS))
+  /\ (Nested(aS) => bS \in {1, 2, 3, 7, 8})
+  /\ (Nested(bS) => aS \in {1, 2, 3, 7, 8})
 
 Level(lv, aS, bS, wa, wb) ==
   LET blocks == (IF aS > 0 THEN [a |-> Body(lv, "a", aS)] ELSE <<>>) @@ (IF bS > 0 THEN [b |-> Body(lv, "b", bS)] ELSE <<>>) IN
-  LET topA == IF aS > 0 /\ bS < 4 THEN <<Block("a", wa)>> ELSE <<>> IN
-  LET topB == IF bS > 0 /\ aS < 4 THEN <<Block("b", wb)>> ELSE <<>> IN
+  LET topA == IF aS > 0 /\ ~Nested(bS) THEN <<Block("a", wa)>> ELSE <<>> IN
+  LET topB == IF bS > 0 /\ ~Nested(aS) THEN <<Block("b", wb)>> ELSE <<>> IN
   [doc |-> <<Text("j" \o Lv(lv))>> \o topA \o <<Text("-")>> \o topB \o <<Text("k" \o Lv(lv))>>, blocks |-> blocks]
 
 VARIABLES chain, go
